@@ -159,6 +159,10 @@ func (h *hook) updateKeys() error {
 
 	keys := map[string]crypto.PublicKey{}
 	for _, parsedJWK := range parsedJWKs.Keys {
+		if parsedJWK == nil {
+			// A null entry of the "keys" array: nothing to decode.
+			continue
+		}
 		publicKey, err := parsedJWK.DecodePublicKey()
 		if err != nil {
 			// A set may list keys this hook has no use for (other key types,
